@@ -36,7 +36,7 @@ for d in sorted(glob.glob(ROOT+'/C*-out/[12]')):
     if os.path.exists(os.path.join(d,'patch.orig.diff')):
         shutil.copy(os.path.join(d,'patch.orig.diff'),dst)
         meta['verified']['note']='patch.diff is the sub-agent\'s change rebased onto a later fix commit of /repo; patch.orig.diff is what was delivered'
-    meta['seeding_round']=1 if OFFSET==0 else 2
+    meta['seeding_round']=OFFSET//2+1
     json.dump(meta,open(os.path.join(dst,'meta.json'),'w'),indent=1)
     rows.append((name,result,meta.get('title','')[:70]))
 for r in rows: print(*r,sep=' | ')
